@@ -198,6 +198,30 @@ func objDigest(o ps.Object, depth int) string {
 	return fmt.Sprintf("<%T>", o)
 }
 
+// RunExecuteCalls feeds the parts to one interpreter in consecutive Execute calls and renders the
+// result as Run("execute", ...) does for the concatenation.
+func RunExecuteCalls(parts [][]byte) (res Result) {
+	defer func() {
+		if p := recover(); p != nil {
+			res.Panic = fmt.Sprint(p)
+		}
+	}()
+	intp := ps.NewInterpreter()
+	intp.MaxOps = 1000000
+	for _, part := range parts {
+		if err := intp.Execute(bytes.NewReader(part)); err != nil {
+			res.Err = err.Error()
+			break
+		}
+	}
+	var ss []string
+	for _, o := range intp.Stack {
+		ss = append(ss, objDigest(o, 0))
+	}
+	res.Digest = fmt.Sprintf("stack[%s] user%s dsc%q dictstack=%d", strings.Join(ss, " "), dictDigest(intp.UserDict, 0), intp.DSC, len(intp.DictStack))
+	return
+}
+
 // Run feeds r to the entry point and renders the result canonically.
 func Run(entry string, r io.Reader) (res Result) {
 	defer func() {
